@@ -133,13 +133,20 @@ impl<T: Clone + Ord + Eq> Identifier<T> {
                 &&& (low is Some && high is Some && id_cmp(low->0@, high->0@) == Ordering::Greater ==> id_cmp(high->0@, r@) == Ordering::Less && id_cmp(r@, low->0@) == Ordering::Less)
                 &&& (low is Some && low->0@.len() > 0 && high is None ==> id_cmp(low->0@, r@) == Ordering::Less)
                 &&& (low is None && high is Some && high->0@.len() > 0 ==> id_cmp(r@, high->0@) == Ordering::Less)
-                &&& r@.len() > 0 && r@.last().1 == marker
+                &&& (!(low is Some && high is Some && id_cmp(low->0@, high->0@) == Ordering::Equal) ==> r@.len() > 0 && r@.last().1 == marker)
             },
     { unimplemented!() }
 }
 
 // ------------------------------------------------------------------------------------------------
 // Layer L (C14): id_cmp is a total order consistent with equality -- for paths of ANY depth.
+/// s enumerates the identifier set dom in increasing identifier order: the sequence a List / GList replica shows
+pub open spec fn id_order<T: Ord>(s: Seq<Identifier<T>>, dom: Set<Identifier<T>>) -> bool {
+    &&& s.no_duplicates()
+    &&& s.to_set() == dom
+    &&& forall|i: int, j: int| 0 <= i < j < s.len() ==> id_cmp((#[trigger] s[i])@, (#[trigger] s[j])@) == Ordering::Less
+}
+
 pub open spec fn node_ok<T: Ord>() -> bool { ord_ok::<(BigRational, T)>() && ord_ok::<T>() }
 
 pub proof fn c14_reflexive<T: Ord>(a: Seq<(BigRational, T)>)
